@@ -7,6 +7,7 @@
 From Coq Require Import ZArith List Bool.
 From Elys Require Import Base.Res Base.Zdec Models.AmmJoinExit Proofs.AmmJoinExitProofs.
 From Elys Require Models.AmmSwap Proofs.PowJoin.
+From Elys Require Models.WeightFee Models.WeightFeeJoinExit Proofs.WeightFeeProofs Proofs.WeightFeeJoinExitProofs.
 Import ListNotations.
 Open Scope Z_scope.
 
@@ -214,3 +215,45 @@ Example C05_nonvacuous :
                 OExit 70000000000000000000000] in
   s = ([30003000001; 10001000001], 60006000001499599979997).
 Proof. vm_compute. reflexivity. Qed.
+
+(* ---------- oracle single-sided join / exit with the WEIGHT-BREAKING FEE COMPUTED BY THE MODEL ----------
+   [join_oracle_wf] / [exit_oracle_wf] (Models/WeightFeeJoinExit.v) are the whole oracle branch of Pool.JoinPool / CalcExitPool +
+   processExitPool incl. WeightDistanceFromTarget before and after, GetWeightBreakingFee and the bonus decision; the fee no
+   longer is an input. prm = (multiplier, exponent, portion, threshold); [exp_int_or_half]: exponent >= 0 with fractional part 0
+   or 1/2 (the chain's 2.5). The fee lies in [0, 0.99], so C05_oracle_join_value / C05_oracle_exit_value /
+   C05_oracle_exit_never_empties apply to the whole functions. *)
+Theorem C05_oracle_join_value_with_fee : forall R S k amt acc prices weights prm sh R' S' bonus,
+  0 <= WeightFee.wp_mult prm -> WeightFeeProofs.exp_int_or_half (WeightFee.wp_exp prm) -> 0 <= WeightFee.wp_portion prm ->
+  0 <= S -> 0 <= amt -> 0 <= nth k prices 0 ->
+  WeightFeeJoinExit.join_oracle_wf R S k amt acc prices weights prm = Ok (sh, R', S', bonus) ->
+  exists T, tvl R acc prices weights = Ok T /\
+    (0 < T -> 0 <= sh /\ sh * T <= S * dmul (nth k prices 0) (dec_of_int amt) + T) /\
+    bonus <= dmul WeightFee.WBF_CAP (WeightFee.wp_portion prm).
+Proof. exact WeightFeeJoinExitProofs.join_oracle_wf_value_exp. Qed.
+Print Assumptions C05_oracle_join_value_with_fee.
+
+Theorem C05_oracle_join_with_fee_is_join : forall R S k amt acc prices weights prm sh R' S' bonus,
+  0 <= WeightFee.wp_mult prm -> WeightFeeProofs.exp_int_or_half (WeightFee.wp_exp prm) -> 0 <= WeightFee.wp_portion prm ->
+  WeightFeeJoinExit.join_oracle_wf R S k amt acc prices weights prm = Ok (sh, R', S', bonus) ->
+  exists wbf, 0 <= wbf <= WeightFee.WBF_CAP /\ (bonus <= 0 -> bonus = - wbf) /\
+    join_oracle R S k amt acc prices weights wbf = Ok (sh, R', S').
+Proof. exact WeightFeeJoinExitProofs.join_oracle_wf_is_join_oracle. Qed.
+Print Assumptions C05_oracle_join_with_fee_is_join.
+
+(* exit: paid value <= pro-rata value + one unit, and an exit NEVER earns a bonus (the code returns - fee) *)
+Theorem C05_oracle_exit_value_with_fee : forall R S sh k acc prices weights prm out R' S' bonus,
+  0 <= WeightFee.wp_mult prm -> WeightFeeProofs.exp_int_or_half (WeightFee.wp_exp prm) ->
+  0 <= sh -> 0 < nth k prices 0 ->
+  WeightFeeJoinExit.exit_oracle_wf R S sh k acc prices weights prm = Ok (out, R', S', bonus) ->
+  exists T, tvl R acc prices weights = Ok T /\
+    (0 <= T -> 0 <= out /\ out * nth k prices 0 * S <= T * sh + S * (nth k prices 0 + 1)) /\
+    bonus <= 0.
+Proof. exact WeightFeeJoinExitProofs.exit_oracle_wf_value_exp. Qed.
+Print Assumptions C05_oracle_exit_value_with_fee.
+
+Theorem C05_oracle_exit_with_fee_is_exit : forall R S sh k acc prices weights prm out R' S' bonus,
+  0 <= WeightFee.wp_mult prm -> WeightFeeProofs.exp_int_or_half (WeightFee.wp_exp prm) ->
+  WeightFeeJoinExit.exit_oracle_wf R S sh k acc prices weights prm = Ok (out, R', S', bonus) ->
+  exists wbf, 0 <= wbf <= WeightFee.WBF_CAP /\ bonus = - wbf /\ exit_oracle R S sh k acc prices weights wbf = Ok (out, R', S').
+Proof. exact WeightFeeJoinExitProofs.exit_oracle_wf_is_exit_oracle. Qed.
+Print Assumptions C05_oracle_exit_with_fee_is_exit.
